@@ -17,7 +17,8 @@ EXPLANATION = (
     "relates layout-compatible types (identical, repr(transparent) newtype, or Vec/tuple/Option thereof); (R18.5) the "
     "default arguments recovered from the generated argument extractors equal the documented table and their Rust "
     "counterparts (Default impls, DEFAULT_MINIMAL_SORT_CONFIDENCE), PySort and PyBatchSort agree."
-    ' R18.5 also covers the default applied in the body of the Sort / BatchSort bindings (`method` omitted -> Mahalanobis); R18.7 also requires that each free #[pyfunction] goes through the Rust routine it is the projection of (delegate table with one reason per entry).')
+    ' R18.5 also covers the default applied in the body of the Sort / BatchSort bindings (`method` omitted -> Mahalanobis); R18.7 also requires that each free #[pyfunction] goes through the Rust routine it is the projection of (delegate table with one reason per entry).'
+    ' (R18.8) KalmanState -> BoundingBox composes KalmanState -> Universal2DBox -> BoundingBox, the two steps the Python bbox() takes.')
 NOT_DECIDED = ["value equality Python <-> Rust for generated scripts (needs the interpreter)", "GIL handling",
                "text signatures / docstrings"]
 ASSUMPTIONS = ["pyo3 0.23 macro expansion shape (__pymethod_*__ wrappers, extract_argument_with_default)",
